@@ -524,11 +524,21 @@ func genHostileFont(t *rapid.T) (*t1ref.RawFont, string) {
 func TestP3Fonts(t *testing.T) {
 	rec := ev.New("C01", "fonts")
 	defer rec.Finish(t)
-	rec.Rule("type1.Read on structure-aware hostile fonts in all four containers (wrapped and encrypted correctly, so that they reach the charstring decoder): lenIV in {minint, -2^40, -1, 0..8, 100000, 2^31, maxint, non-integers}; charstrings and subroutines that are random sequences over all command codes (valid, reserved and undefined) and all number formats incl. truncated multi-byte numbers, every (argN, index) pair in -2..5 x -1..5 for callothersubr, pop on an empty stack, callsubr with out-of-range indices, div by zero, seac with arbitrary operands; subroutine call trees with fan-out 1-60 at depth 1-12 and recursive subroutines; Subrs/Encoding/FontMatrix/FontInfo/Private entries of the wrong type; two definefonts; hostile PostScript after definefont; plus valid fonts with random byte mutations and raw random bytes. Child-process oracle as above. Non-trivial: the input got past the container into the interpreter (heuristic: the file was produced by the structured writer); distinct by bytes.")
+	rec.Rule("type1.Read on structure-aware hostile fonts in all four containers (wrapped and encrypted correctly, so that they reach the charstring decoder): lenIV in {minint, -2^40, -1, 0..8, 100000, 2^31, maxint, non-integers}; charstrings and subroutines that are random sequences over all command codes (valid, reserved and undefined) and all number formats incl. truncated multi-byte numbers, every (argN, index) pair in -2..5 x -1..5 for callothersubr, pop on an empty stack, callsubr with out-of-range indices, div by zero, seac with arbitrary operands; subroutine call trees with fan-out 1-60 at depth 1-12 and recursive subroutines; Subrs/Encoding/FontMatrix/FontInfo/Private entries of the wrong type; two definefonts; hostile PostScript after definefont; plus valid fonts with random byte mutations, valid fonts whose clear-text decimal tokens are replaced by hostile constants, and raw random bytes. Child-process oracle as above. Non-trivial: the input got past the container into the interpreter (heuristic: the file was produced by the structured writer); distinct by bytes.")
 	var cases []*hcase
 	ev.SetupRapid(10000, 320000)
 	rapid.Check(t, func(t *rapid.T) {
-		switch rapid.IntRange(0, 9).Draw(t, "kind") {
+		switch rapid.IntRange(0, 10).Draw(t, "kind") {
+		case 10:
+			// decimal tokens of the clear text (array/dict sizes, lenIV,
+			// charstring lengths of unencrypted fonts ...) replaced
+			d, _ := inputs.FontFile(t, 3)
+			clear := len(d)
+			if i := bytes.Index(d, []byte("eexec")); i >= 0 {
+				clear = i
+			}
+			b := append(replaceNumbers(t, d[:clear]), d[clear:]...)
+			cases = append(cases, &hcase{Target: "type1", Data: b, Label: "numbers-replaced"})
 		case 0:
 			d, _ := inputs.FontFile(t, 3)
 			b := append([]byte{}, d...)
@@ -563,7 +573,9 @@ func genHostileCMap(t *rapid.T) []byte {
 	m := inputs.CMapModel(t)
 	data := cmapref.Write([]*cmapref.CMap{m}, t1gen.RapidChooser{T: t})
 	s := string(data)
-	switch rapid.IntRange(0, 7).Draw(t, "cmapfault") {
+	switch rapid.IntRange(0, 9).Draw(t, "cmapfault") {
+	case 8, 9:
+		return replaceNumbers(t, data)
 	case 0:
 		s = strings.Replace(s, " begincidchar", "9223372036854775807 begincidchar", 1)
 		s = strings.Replace(s, " beginbfrange", "-5 beginbfrange", 1)
@@ -587,9 +599,63 @@ func genHostileCMap(t *rapid.T) []byte {
 	return []byte(s)
 }
 
+// hostileNumbers replace decimal tokens of a well-formed text file (counts,
+// sizes, lengths, codes, values).
+var hostileNumbers = []string{"9223372036854775807", "-9223372036854775808", "9223372036854775808", "99999999999999999999", "2147483647", "2147483648", "4294967295", "4294967296", "65535", "65536", "1000000000", "-1", "0", "1e999", "NaN", "0x7fffffffffffffff", "1e18", "268435456"}
+
+// replaceNumbers overwrites 1-3 of the decimal tokens in data (runs of
+// digits with an optional sign that stand between separators) with hostile
+// constants.
+func replaceNumbers(t *rapid.T, data []byte) []byte {
+	type span struct{ a, b int }
+	var spans []span
+	isSep := func(c byte) bool { return c <= ' ' || strings.IndexByte("[]{}()<>/;", c) >= 0 }
+	for i := 0; i < len(data); {
+		j := i
+		if data[j] == '-' || data[j] == '+' {
+			j++
+		}
+		k := j
+		for k < len(data) && data[k] >= '0' && data[k] <= '9' {
+			k++
+		}
+		if k > j && (i == 0 || isSep(data[i-1])) && (k == len(data) || isSep(data[k])) {
+			spans = append(spans, span{i, k})
+			i = k
+			continue
+		}
+		i++
+	}
+	if len(spans) == 0 {
+		return data
+	}
+	out := append([]byte{}, data...)
+	for n := rapid.IntRange(1, 3).Draw(t, "nreplace"); n > 0; n-- {
+		sp := spans[rapid.IntRange(0, len(spans)-1).Draw(t, "whichnumber")]
+		if sp.b > len(out) {
+			continue
+		}
+		h := rapid.SampledFrom(hostileNumbers).Draw(t, "hostilenumber")
+		if n == 1 || len(spans) == 1 {
+			// replacing the last one keeps earlier offsets valid: do it at the end
+			out = append(append(append([]byte{}, out[:sp.a]...), h...), out[sp.b:]...)
+			break
+		}
+		// same-length overwrite for the others (keeps offsets)
+		w := sp.b - sp.a
+		for len(h) < w {
+			h += "9"
+		}
+		copy(out[sp.a:sp.b], h[:w])
+	}
+	return out
+}
+
 func genHostileAFM(t *rapid.T) []byte {
 	d := inputs.AFMFile(t)
-	switch rapid.IntRange(0, 5).Draw(t, "afmfault") {
+	switch rapid.IntRange(0, 7).Draw(t, "afmfault") {
+	case 6, 7:
+		return replaceNumbers(t, d)
 	case 0:
 		s := strings.Replace(string(d), "WX ", "WX 99999999999999999999", 1)
 		s = strings.Replace(s, "C ", "C -9223372036854775808", 1)
@@ -638,7 +704,7 @@ func genHostilePFB(t *rapid.T) []byte {
 func TestP4Others(t *testing.T) {
 	rec := ev.New("C01", "others")
 	defer rec.Finish(t)
-	rec.Rule("ReadCMap: generated standard-form CMaps with one injected fault (counts 2^63-1 / negative / 101, missing begincmap, end operators of the wrong kind, doubled endcmap, truncation at any offset, operators with missing operands, strings instead of hex strings, hostile PostScript after defineresource) and raw bytes; afm.Read: generated AFM files with adversarial numbers (20-digit, minint, NaN, Inf, 1e999), lines of 65535-200000 bytes, nested or missing section markers, byte mutations, raw bytes; pfb.Decode (also through type1.Read): segment sequences with arbitrary markers and types, declared lengths 0..2^32-1 against 0-20 bytes of data, truncation anywhere. Child-process oracle as above. Non-trivial: input longer than 8 bytes; distinct by bytes.")
+	rec.Rule("ReadCMap: generated standard-form CMaps with one injected fault (counts 2^63-1 / negative / 101, missing begincmap, end operators of the wrong kind, doubled endcmap, truncation at any offset, operators with missing operands, strings instead of hex strings, hostile PostScript after defineresource) and raw bytes; any 1-3 decimal tokens of a generated CMap or AFM file (counts, sizes, codes, values) replaced by hostile constants (2^63-1, -2^63, 2^63, 20 digits, 2^31, 2^32, 65536, 10^9, -1, 1e999, NaN ...); afm.Read: generated AFM files with adversarial numbers (20-digit, minint, NaN, Inf, 1e999), lines of 65535-200000 bytes, nested or missing section markers, byte mutations, raw bytes; pfb.Decode (also through type1.Read): segment sequences with arbitrary markers and types, declared lengths 0..2^32-1 against 0-20 bytes of data, truncation anywhere. Child-process oracle as above. Non-trivial: input longer than 8 bytes; distinct by bytes.")
 	var cases []*hcase
 	ev.SetupRapid(12000, 400000)
 	rapid.Check(t, func(t *rapid.T) {
